@@ -19,7 +19,7 @@ RULE = ("Programs: every body of AST size <= S (core grammar + probe leaves) x {
         "full set; programs above the size stated in bounds.full_subsets_size: every single point and the full set) x repetition {1,3} x mode {trickery, referents} the program is re-run with extract() at exactly those points "
         "and must produce the same event log, yielded values and outcome as the unobserved twin; consecutive extractions of the "
         "unchanged target must compare equal; afterwards weakrefs to every manager, the target and its frame must be dead and "
-        "Release: three targets (generator, generator observed from a nested call, coroutine) abandoned inside their with-block with the cyclic collector switched off, having extracted themselves twice while running (extract(self) / StackSlice from their own frame, both modes): dropping the last reference must finalise them on the spot exactly as in the unobserved twin. The same for nine hand-written programs: four whose frame holds a manager with a staticmethod __exit__ (trickery analysis fails and falls back) three whose `as` targets cannot be described (the analysis gives up on the target on every extraction), and two with a class body / an exec with its own locals mapping between the target frame and the probe; refcounts of value-stack objects unchanged by 4 extract-and-drop rounds. Chains: same for every chain spec of length "
+        "Release: three targets (generator, generator observed from a nested call, coroutine) abandoned inside their with-block with the cyclic collector switched off, having extracted themselves twice while running (extract(self) / StackSlice from their own frame, both modes): dropping the last reference must finalise them on the spot exactly as in the unobserved twin. The same for eleven hand-written programs (the last two make the extraction record an error whose traceback runs through the suspended target's own frame): four whose frame holds a manager with a staticmethod __exit__ (trickery analysis fails and falls back) three whose `as` targets cannot be described (the analysis gives up on the target on every extraction), and two with a class body / an exec with its own locals mapping between the target frame and the probe; refcounts of value-stack objects unchanged by 4 extract-and-drop rounds. Chains: same for every chain spec of length "
         "<= N and every subset of its positions. A worker dying on a signal is a violation. evaluations = observed re-runs; "
         "distinct_nontrivial = distinct (program, kind, path) / chain specs with >= 1 observation point.")
 ASSUMPTIONS = ["n > 6 observation points: subsets of size <= 2 plus the full set (stated cap, fully enumerated below it)"]
@@ -287,14 +287,41 @@ ODD_PROGRAMS = [
     # and the probe: what the code there computes after the extraction must not change
     ("func", "def prog(rt):\n    z = None\n    try:\n        class K:\n            width = 3\n            with M(rt, 1) as v1:\n                rt.probe('body')\n            area = width * 2\n        rt.log.append(('area', K.area))\n    except NameError as ex:\n        rt.log.append(('nameerror', str(ex)))\n    rt.probe('after')\n"),
     ("gen", "def prog(rt):\n    z = None\n    ns = {}\n    try:\n        with M(rt, 1) as v1:\n            exec('a = 5\\nrt.probe(\"body\")\\nb = a + 1\\n', {'rt': rt}, ns)\n            yield 'body'\n        rt.log.append(('ns', sorted(ns.items())))\n    except NameError as ex:\n        rt.log.append(('nameerror', str(ex)))\n    yield 'after'\n"),
+    # an extraction that RECORDS an error whose traceback passes through the (suspended) target's own frame: the manager's
+    # repr re-raises an exception the target caught earlier; the contextlib glue formats the manager and reports the failure
+    ("gen", "def prog(rt):\n    z = None\n    try:\n        raise E()\n    except E as ex:\n        saved = ex\n    with ES() as es:\n        es.enter_context(Hostile(rt, 1, saved))\n        yield 'body'\n        yield 'body2'\n    saved = None\n    yield 'after'\n"),
+    ("coro", "async def prog(rt):\n    z = None\n    try:\n        raise E()\n    except E as ex:\n        saved = ex\n    with ES() as es:\n        es.enter_context(Hostile(rt, 1, saved))\n        await trap('body')\n        await trap('body2')\n    saved = None\n    await trap('after')\n"),
 ]
 
 
+class Hostile(TrackM):
+    """a manager whose repr() re-raises an exception object that was caught - and whose traceback was made - elsewhere"""
+
+    def __init__(s, rt, i, saved):
+        TrackM.__init__(s, rt, i)
+        s.saved = saved
+
+    def __repr__(s):
+        raise s.saved
+
+    def __exit__(s, *exc):
+        # the exception object (whose traceback grows with every failed repr) goes away with the block
+        s.saved = None
+        return TrackM.__exit__(s, *exc)
+
+
 def compile_tracked(src):
+    import contextlib
     ns = dict(ps.NS)
     ns["M"] = TrackM
     ns["AM"] = TrackAM
     ns["OddM"] = OddM
+    ns["Hostile"] = Hostile
+
+    class ES(contextlib.ExitStack):
+        def __repr__(s):
+            return "ES"    # the same text in every run (the harness compares reports across runs)
+    ns["ES"] = ES
     exec(compile(src, "<prog>", "exec"), ns)
     return ns["prog"]
 
